@@ -1287,6 +1287,18 @@ func (w *Worker) invoke(s *State, f *Frame, fnv Value, args []Value, dst ssa.Val
 			return
 		}
 		if !inMod || len(fn.fn.Blocks) == 0 {
+			// a framework call the harness declared to be "the wrapped handler is invoked here"
+			if hk, ok := s.ghost["hook/"+name].(*Closure); ok && hk != nil {
+				s.job.stub("hooked:" + name)
+				w.setResult(f, dst, resultZeroS(s, fn.fn.Signature))
+				advance()
+				nf := newFrame(hk.fn, nil, nil)
+				for i, fv := range hk.fn.FreeVars {
+					nf.env[fv] = hk.env[i]
+				}
+				s.frames = append(s.frames, nf)
+				return
+			}
 			s.job.stub("havoc:" + name)
 			w.setResult(f, dst, resultZeroS(s, fn.fn.Signature))
 			advance()
